@@ -17,6 +17,22 @@
 //! `base = Instant::now()` as production callers do.
 //!
 //! Thorough tier adds `stress.rs`: 8 threads × 3 keys, regular-register history check.
+//!
+//! Second observation point, "from upstream messages" (what is cached and for how long is decided
+//! *before* `ResponseCache::insert` in production):
+//!  * M1 (`upstream.rs`, `real::insert_upstream`): histories also contain `Op::Up(key, wire)` — an upstream
+//!    RESPONSE message in wire form (generated with the independent `vh::refwire` writer: RCODE, AA/TC/RA,
+//!    question present / absent / mismatching, answer empty / CNAME chain without final answer / other
+//!    types only / proper answer, authority with 0–2 SOA (TTL ≶ MINIMUM, owner at / above / unrelated to the
+//!    query name) and NS ± glue, additional junk incl. an SOA in the wrong section). It goes through the
+//!    calls production uses between transport and cache (`DnsResponse::from_buffer` →
+//!    `DnsError::from_response` as in `NameServer::send`, the pool's truncation check, the recursor's
+//!    `insert(Err(e))` / `insert(Ok(message))`) and the model side is `upstream::classify` (RFC 2308 §2/§5):
+//!    error RCODE / TC / undecodable ⇒ transient (never visible [transient_cached]); NXDOMAIN / NODATA with an
+//!    authority SOA ⇒ negative entry with negative_ttl = min(SOA TTL, SOA.MINIMUM), lifetime and ageing judged
+//!    by `refcache` as for hand-built inserts; answers present ⇒ positive entry; don't-cares U1–U5 there.
+//!  * M2 (`m2.rs`): `CachingClient::new(..).lookup` end to end over a scripted `DnsHandle`, in real time on
+//!    its own thread (the cache inside the client is not reachable, `with_cache` is `pub(crate)`).
 
 mod m2;
 mod real;
@@ -175,8 +191,9 @@ pub struct Exec {
     now: u64,
     entry_hash: Vec<u64>,
     transient_pending: Vec<bool>,
-    /// M1: class label of the upstream message that was the last (transient-class) thing received for the key
-    up_transient: Vec<Option<&'static str>>,
+    /// M1: the upstream messages of a transient class received for the key since its last stored insert
+    /// (class label, what the entry would look like had the message been cached)
+    up_transient: Vec<Vec<(&'static str, Vec<View>)>>,
     /// M1: what the last `Op::Up` was (for the counters of the caller)
     pub last_up: Option<UpInfo>,
 }
@@ -211,7 +228,7 @@ impl Exec {
             now: 0,
             entry_hash: vec![0; case.keys.len()],
             transient_pending: vec![false; case.keys.len()],
-            up_transient: vec![None; case.keys.len()],
+            up_transient: vec![vec![]; case.keys.len()],
             last_up: None,
         }
     }
@@ -226,6 +243,9 @@ impl Exec {
             Op::Clear => {
                 let r = mon::catch(|| self.real.cache.verif_clear());
                 self.model.clear();
+                for u in self.up_transient.iter_mut() {
+                    u.clear();
+                }
                 r.err().map(|p| self.panic_outcome("clear", p))
             }
             Op::Ins(k, v) => {
@@ -237,7 +257,7 @@ impl Exec {
                 self.model.insert_stored(k, self.keys[k].1, v.clone(), self.now);
                 self.entry_hash[k] = view_hash(v);
                 self.transient_pending[k] = false;
-                self.up_transient[k] = None;
+                self.up_transient[k].clear();
                 r.err().map(|p| self.panic_outcome("insert", p))
             }
             Op::Up(k, wire) => {
@@ -251,25 +271,35 @@ impl Exec {
                     UpClass::Transient => {
                         self.model.insert_transient(k);
                         self.transient_pending[k] = true;
-                        self.up_transient[k] = Some(m.label);
+                        self.up_transient[k].push((m.label, m.would_be));
                         "transient"
                     }
                     UpClass::Opaque => {
                         self.model.set_opaque(k);
                         self.transient_pending[k] = false;
-                        self.up_transient[k] = None;
+                        self.up_transient[k].clear();
                         "opaque"
                     }
                     UpClass::Stored(mut cands) => {
                         // U4: several admissible interpretations — the one the cache chose is identified by
                         // the form / SOA serial of the entry at age 0 (this peek is not judged)
                         let ambiguous = cands.len() > 1;
-                        let mut pick = 0;
+                        let mut pick = Some(0);
                         if ambiguous {
-                            if let Ok(Obs::Entry(v)) = mon::catch(|| observe(self.real.cache.get(&q, at))) {
-                                pick = cands.iter().position(|c| c.same_entry(&v)).unwrap_or(0);
-                            }
+                            pick = match mon::catch(|| observe(self.real.cache.get(&q, at))) {
+                                // none of the admissible interpretations: judged against the first one
+                                Ok(Obs::Entry(v)) => Some(cands.iter().position(|c| c.same_entry(&v)).unwrap_or(0)),
+                                // not visible (eviction at tiny capacities): which one was chosen stays unknown
+                                _ => None,
+                            };
                         }
+                        let Some(pick) = pick else {
+                            self.model.set_opaque(k);
+                            self.transient_pending[k] = false;
+                            self.up_transient[k].clear();
+                            self.last_up = Some(UpInfo { label: m.label, features: m.features, class: "ambiguous_unresolved", outcome: r.as_ref().map(|o| *o).unwrap_or("panic") });
+                            return r.err().map(|p| self.panic_outcome("insert_upstream", p));
+                        };
                         let v = cands.swap_remove(pick);
                         self.entry_hash[k] = view_hash(&v);
                         self.model.insert_stored(k, self.keys[k].1, v, self.now);
@@ -277,7 +307,7 @@ impl Exec {
                         labels.extend(m.features.iter().copied());
                         self.model.set_labels(k, labels);
                         self.transient_pending[k] = false;
-                        self.up_transient[k] = None;
+                        self.up_transient[k].clear();
                         if ambiguous {
                             "stored_ambiguous"
                         } else {
@@ -296,7 +326,6 @@ impl Exec {
                 let r = mon::catch(|| self.real.cache.insert(q, Err(e), at));
                 self.model.insert_transient(k);
                 self.transient_pending[k] = true;
-                self.up_transient[k] = None;
                 r.err().map(|p| self.panic_outcome("insert_transient", p))
             }
             Op::Get(k) => {
@@ -310,7 +339,27 @@ impl Exec {
                 let wallclock_passed = j.unexpected_none
                     && Instant::now() >= self.real.base + Duration::from_nanos(j.soft_deadline);
                 let after_transient = std::mem::replace(&mut self.transient_pending[k], false);
-                let after_up_transient = self.up_transient[k].take();
+                // M1: upstream messages of a transient class were received for this key since its last stored insert
+                let after_up_transient = self.up_transient[k].last().map(|(l, _)| *l);
+                let mut j = j;
+                if let (Obs::Entry(v), false) = (&obs, self.up_transient[k].is_empty()) {
+                    // an entry that is neither the latest stored insert nor an older one, but is what one of the upstream
+                    // error / truncated responses received since looks like as a cache entry: that response was cached
+                    let matching: Vec<&'static str> = self.up_transient[k].iter().filter(|(_, w)| w.iter().any(|c| c.same_entry(v))).map(|(l, _)| *l).collect();
+                    let culprit = match matching.first() {
+                        None => None,
+                        Some(l) if matching.iter().all(|x| x == l) => Some(*l),
+                        Some(_) => Some("error_or_truncated_response"),
+                    };
+                    if let Some(label) = culprit {
+                        for f in j.findings.iter_mut() {
+                            if f.rule == "phantom" || (f.rule == "content" && f.sig.starts_with("unknown_entry")) {
+                                f.rule = "transient_cached";
+                                f.sig = format!("upstream_{label}|got={}", if v.negative { "negative_entry" } else { "positive_entry" });
+                            }
+                        }
+                    }
+                }
                 let okind = match &obs {
                     Obs::None => 0u64,
                     Obs::Entry(_) => 1,
@@ -699,6 +748,12 @@ fn report_findings(rep: &mut Reporter, acct: &mut Acct, case: &Case, op_index: u
     for f in findings {
         let n = acct.seen.entry(format!("{}|{}", f.rule, f.sig)).or_insert(0);
         *n += 1;
+        if *n > 200 {
+            // the reporter lists at most 10 000 violations per shard; a defect that fires on every other
+            // get must not crowd the signatures of the other observation points (M2) out of that list
+            rep.count("violations_not_listed");
+            continue;
+        }
         let w = if *n <= 3 { witness_case(case, op_index, key, f.rule, &f.sig) } else { json!({"omitted": "witness kept only for the first occurrences"}) };
         rep.violation(f.rule, &f.sig, w, f.expected.clone(), f.observed.clone());
     }
@@ -839,7 +894,7 @@ fn run_generated_history(rep: &mut Reporter, acct: &mut Acct, rng: &mut Rng, nop
             Op::Get(k)
         } else {
             focus = None;
-            match rng.weighted(&[37, 16, 8, 8, 24, 2, 11]) {
+            match rng.weighted(&[38, 17, 8, 8, 24, 2, 8]) {
                 6 => {
                     let k = rng.usize_below(nk);
                     let qname = vh::refwire::labels_of(NAMES[case.keys[k].0 % NAMES.len()]);
@@ -931,7 +986,8 @@ fn replay_history(rep: &mut Reporter, case: &Case) {
 }
 
 fn m1_musts(rep: &mut Reporter, thorough: bool) {
-    let m = |q: u64| if thorough { q * 20 } else { q };
+    // the thorough tier runs about twice the operations of the quick tier at its driver scale (quick_scale 6)
+    let m = |q: u64| if thorough { q * 2 } else { q };
     rep.must("m1/cases", m(300_000));
     rep.must("m1/hits", m(200_000));
     rep.must("m1/hits_aged_ge_1s", m(50_000));
